@@ -105,20 +105,30 @@ Merge(cur, x) ==
 -----------------------------------------------------------------------------
 (* Canonical, order-free form of a schema: what "defines the same schema" compares (C15, C16). *)
 
-CanonArgs(args) ==
+AllDirs(s) == [n \in DOMAIN s.dirs \cup DOMAIN CoreDirs |-> IF n \in DOMAIN s.dirs THEN s.dirs[n] ELSE CoreDirs[n]]
+
+\* a directive use as a name plus an argument map, with the defaults of the directive's
+\* definition filled in ("once directive-argument defaults are taken into account", C16)
+CanonUse(s, du) ==
+  LET given == [x \in NameSet(du.args) |-> ByName(du.args, x).v]
+      decl == IF du.n \in DOMAIN AllDirs(s) THEN AllDirs(s)[du.n].args ELSE <<>>
+      defaulted == {decl[i].n : i \in {i \in DOMAIN decl : decl[i].hasDef}} \ DOMAIN given
+  IN [n |-> du.n, args |-> [x \in DOMAIN given \cup defaulted |-> IF x \in DOMAIN given THEN given[x] ELSE ByName(decl, x).def]]
+CanonUses(s, uses) == {CanonUse(s, uses[i]) : i \in DOMAIN uses}
+CanonArgs(s, args) ==
   [n \in NameSet(args) |-> LET a == ByName(args, n) IN
-     [type |-> a.type, hasDef |-> a.hasDef, def |-> a.def, desc |-> a.desc, dirs |-> {a.dirs[i] : i \in DOMAIN a.dirs}]]
-CanonDef(d) ==
+     [type |-> a.type, hasDef |-> a.hasDef, def |-> a.def, desc |-> a.desc, dirs |-> CanonUses(s, a.dirs)]]
+CanonDef(s, d) ==
   [ kind |-> d.kind, desc |-> d.desc,
     ifaces |-> Range(d.ifaces), members |-> Range(d.members), locs |-> Range(d.locs),
     fields |-> [n \in NameSet(d.fields) |-> LET f == ByName(d.fields, n) IN
-                  [type |-> f.type, desc |-> f.desc, args |-> CanonArgs(f.args), dirs |-> Range(f.dirs)]],
-    values |-> [n \in NameSet(d.values) |-> LET v == ByName(d.values, n) IN [desc |-> v.desc, dirs |-> Range(v.dirs)]],
-    infields |-> CanonArgs(d.infields),
-    args |-> CanonArgs(d.args),
-    dirs |-> Range(d.dirs) ]
+                  [type |-> f.type, desc |-> f.desc, args |-> CanonArgs(s, f.args), dirs |-> CanonUses(s, f.dirs)]],
+    values |-> [n \in NameSet(d.values) |-> LET v == ByName(d.values, n) IN [desc |-> v.desc, dirs |-> CanonUses(s, v.dirs)]],
+    infields |-> CanonArgs(s, d.infields),
+    args |-> CanonArgs(s, d.args),
+    dirs |-> CanonUses(s, d.dirs) ]
 Canon(s) ==
-  [ types |-> [n \in DOMAIN s.types |-> CanonDef(s.types[n])],
-    dirs |-> [n \in DOMAIN s.dirs |-> CanonDef(s.dirs[n])],
+  [ types |-> [n \in DOMAIN s.types |-> CanonDef(s, s.types[n])],
+    dirs |-> [n \in DOMAIN s.dirs |-> CanonDef(s, s.dirs[n])],
     roots |-> s.roots ]
 =============================================================================
